@@ -7,10 +7,12 @@
 // against a live standalone Committee (proposal-family transactions are kept
 // only if the real SpecialContextCheck accepts them, blocks only if
 // CheckDuplicateTx accepts them), then
-//   direct[h]   = canonical state of a fresh committee fed blocks <= h
-//   jump[h]     = fresh committee fed all blocks, RollbackTo(h)
-//   step[h]     = one committee fed all blocks, rolled back one height at a time
-//   redo[h]     = jump[h] then fed blocks h+1..N again, compared with direct[N]
+//
+//	direct[h]   = canonical state of a fresh committee fed blocks <= h
+//	jump[h]     = fresh committee fed all blocks, RollbackTo(h)
+//	step[h]     = one committee fed all blocks, rolled back one height at a time
+//	redo[h]     = jump[h] then fed blocks h+1..N again, compared with direct[N]
+//
 // and every pair is compared field by field.  The reduced Gallina model of
 // coq/model/C22_CrState.v is checked on projected traces of the same runs.
 package main
@@ -131,25 +133,25 @@ type pinfo struct {
 }
 
 type gen struct {
-	w        *world
-	e        *crkit.Env
-	rng      *lib.Rng
-	h        uint32
-	regTx    map[int]interfaces.Transaction // candidate -> latest register tx
-	voteTx   map[int]interfaces.Transaction // voter -> unspent vote tx
-	props    []*pinfo
-	nick     int
-	wdTxs    []common.Uint256
-	fundTxs  []interfaces.Transaction
-	kinds    map[string]int
-	rej      map[string]int
+	w       *world
+	e       *crkit.Env
+	rng     *lib.Rng
+	h       uint32
+	regTx   map[int]interfaces.Transaction // candidate -> latest register tx
+	voteTx  map[int]interfaces.Transaction // voter -> unspent vote tx
+	props   []*pinfo
+	nick    int
+	wdTxs   []common.Uint256
+	fundTxs []interfaces.Transaction
+	kinds   map[string]int
+	rej     map[string]int
 	// plan: scenario directives mixed into the random stream (council dissolved by
 	// impeachment while proposals are pending; members impeached while inactive)
 	impeachAt   uint32
 	impeachN    int
 	proposalsAt uint32
-	scripted bool // register everybody at once and vote broadly (elections mostly succeed)
-	rejected int
+	scripted    bool // register everybody at once and vote broadly (elections mostly succeed)
+	rejected    int
 }
 
 func (g *gen) memberKey(did common.Uint168) *crkit.Key {
